@@ -261,19 +261,22 @@ class RungeKuttaIntegrator(TableauIntegrator, abc.ABC):
             self.__jac_eye = D.ar_numpy.eye(self.tableau_intermediate.shape[0] * __step, **self.array_constructor_kwargs)
             self.__jac = D.ar_numpy.copy(self.__jac_eye)
         D.ar_numpy.copyto(self.__jac, self.__jac_eye)
-        for idx in range(0, self.__jac.shape[0], __step):
+        # the unknowns are the stage values flattened with the stage index running fastest: the entry that couples
+        # (component c, stage i) to (component d, stage j) sits at [c * stages + i, d * stages + j]
+        __stages = self.tableau_intermediate.shape[0]
+        for idx in range(__stages):
             if self._requires_high_precision:
-                tbl = self.tableau_intermediate[idx // __step]
+                tbl = self.tableau_intermediate[idx]
                 jac_block = rhs.jac(initial_time + tbl[0] * timestep,
                                     initial_state + timestep * D.ar_numpy.sum(tbl[1:] * __aux_states, axis=-1),
                                     **constants).reshape(__step, __step)
             else:
                 jac_block = self.__rhs_jac.reshape(__step, __step)
-            for jdx in range(0, self.__jac.shape[1], __step):
+            for jdx in range(__stages):
                 with warnings.catch_warnings():
                     warnings.filterwarnings("ignore", category=RuntimeWarning, message="invalid value encountered in matmul")
                     warnings.filterwarnings("ignore", category=RuntimeWarning, message="overflow encountered in subtract")
-                    self.__jac[idx:idx + __step, jdx:jdx + __step] -= timestep * self.tableau_intermediate[idx // __step, 1 + jdx // __step] * jac_block
+                    self.__jac[idx::__stages, jdx::__stages] -= timestep * self.tableau_intermediate[idx, 1 + jdx] * jac_block
         __jac = self.__jac
         if self.__jac.shape[0] == 1 and self.__jac.shape[1] == 1:
             __jac = D.ar_numpy.reshape(__jac, tuple())
